@@ -312,19 +312,22 @@ fn trailers(rep: &mut Report, rng: &mut Rng, big: bool) {
                         continue;
                     }
                     let mode = if ring { BufMode::Ring(32768) } else { BufMode::Flat(flat_cap) };
-                    let flags = F_ZLIB | if ignore { F_IGNORE } else { 0 };
+                    // COMPUTE_ADLER32 must not change the verdict (the ignore flag overrides it)
+                    let compute = rng.chance(1, 2);
+                    let flags = F_ZLIB | if ignore { F_IGNORE } else { 0 } | if compute { F_ADLER } else { 0 };
+                    rep.count(if compute { "corruption_runs_with_compute_flag" } else { "corruption_runs_without_compute_flag" });
                     let mut d = DecompressorOxide::new();
                     let run = drive_core(&mut d, s, flags, &mode, &chunking.lens(n), budgets, None);
                     rep.eval();
                     rep.count("corruption_runs_core");
-                    let det = || Json::obj(vec![("variant", Json::s(what)), ("stream_hex", Json::s(&hex_short(s, 300))), ("stream_len", Json::u(n)), ("mode", Json::s(if ring { "ring32768" } else { "flat" })), ("chunking", Json::s(&chunking.describe())), ("budgets", Json::s(&format!("{:?}", budgets))), ("ignore_adler32", Json::Bool(ignore)), ("calls", Json::s(&run.tail(4)))]);
+                    let det = || Json::obj(vec![("variant", Json::s(what)), ("stream_hex", Json::s(&hex_short(s, 300))), ("stream_len", Json::u(n)), ("mode", Json::s(if ring { "ring32768" } else { "flat" })), ("chunking", Json::s(&chunking.describe())), ("budgets", Json::s(&format!("{:?}", budgets))), ("ignore_adler32", Json::Bool(ignore)), ("compute_adler32", Json::Bool(compute)), ("calls", Json::s(&run.tail(4)))]);
                     if let Some(p) = &run.panic {
                         rep.violation(&format!("C09:panic:{}", p.site_file()), p.text.clone(), det());
                         continue;
                     }
                     let want = if *valid || ignore { TINFLStatus::Done } else { TINFLStatus::Adler32Mismatch };
                     if run.status != want {
-                        let sig = if run.status == TINFLStatus::Done { "C09:bad-checksum-accepted" } else if *valid || ignore { "C09:good-stream-rejected" } else { "C09:wrong-status-for-bad-checksum" };
+                        let sig = if run.status == TINFLStatus::Done { "C09:bad-checksum-accepted" } else if *valid { "C09:good-stream-rejected" } else if ignore { "C09:ignore-flag-not-honoured" } else { "C09:wrong-status-for-bad-checksum" };
                         rep.violation(&format!("{}:{}", sig, if ring { "ring" } else { "flat" }), format!("'{}' (ignore flag {}): final status {} but expected {}", what, ignore, st_name(run.status), st_name(want)), det());
                     } else if !valid && !ignore {
                         rep.count("corruptions_detected");
